@@ -121,6 +121,30 @@ func runCompRace(x *X) {
 			})
 		}
 		wg.Wait()
+		// a pattern the mix above rarely produces: one failure short of the threshold, a pause longer
+		// than the counting interval, then everybody at once (the expired count is cleared by
+		// whoever comes first -- while the others are reading it)
+		iv := time.Duration(1+c.Intn(20, "interval-ms-again")) * time.Millisecond
+		_ = iv
+		for round := 0; round < 6; round++ {
+			time.Sleep(25 * time.Millisecond) // past timeout and interval: back to a quiet breaker
+			cb.Execute(func() error { return nil })
+			cb.Execute(func() error { return nil })
+			cb.Execute(func() error { return boom })
+			time.Sleep(22 * time.Millisecond) // longer than any interval drawn above
+			gate := make(chan struct{})
+			var wg2 sync.WaitGroup
+			for g := 0; g < nG; g++ {
+				wg2.Add(1)
+				go func() {
+					defer wg2.Done()
+					<-gate
+					cb.Execute(func() error { return nil })
+				}()
+			}
+			close(gate)
+			wg2.Wait()
+		}
 		nmu.Lock()
 		if notes > 2 {
 			x.Probe("breaker-cycled")
